@@ -771,3 +771,45 @@ example :
     C15.eulerModel4 b true = 12 ∧ C15.eulerSpec b true = 3 ∧ C15.eulerModel4 b false = 4 * C15.eulerSpec b false := by
   intro b
   exact ⟨by decide +kernel, by decide +kernel, C15_euler_gray_one_row b false rfl⟩
+
+/-- **C15 (`euler`: Gray's identity, every image of width 1).** The same for one-column images (any height, any number of
+runs, both connectivities): `eulerModel4 b c = 4 · eulerSpec b c` for `b.cols = 1`. The pixel graph of a one-column box is again
+a path (`adj_one_col`), every pixel is a border pixel, and the image is the product of the column profile with the indicator
+of column 0. Together with `C15_euler_gray_one_row`: Gray's identity holds for every image with `min(rows, cols) = 1`. -/
+theorem C15_euler_gray_one_col (b : C15.Bin) (c : Bool) (h1 : b.cols = 1) :
+    C15.eulerModel4 b c = 4 * C15.eulerSpec b c := by
+  obtain ⟨comps, inner, hc, _, hspec, hcm, him⟩ := C15_eulerSpec_count b c
+  rw [C15.eulerModel4_one_col b c h1, hspec]
+  have hinner : inner = [] := by
+    cases inner with
+    | nil => rfl
+    | cons s t =>
+      have hs := (him s).1 (List.mem_cons_self)
+      exact absurd ⟨s, Relation.ReflTransGen.refl, by rw [h1]; exact C15.bdr_one_col _ _⟩ hs.2
+  have hpath := C15.minimal_iff_path b.rows 1 b.data c
+    (fun i j hi h => C15.adj_one_col (by omega) h)
+    (fun i hi h1' => C15.adj_left_one_col c (by omega) h1')
+  have hlen : (comps.length : Int) =
+      ∑ k ∈ Finset.range b.rows, if (C15.mk b.data k = true ∧ (k = 0 ∨ C15.mk b.data (k - 1) = false)) then 1 else 0 := by
+    apply C15.length_eq_sum_indicator comps hc b.rows
+    intro i
+    rw [hcm i, h1]
+    constructor
+    · rintro ⟨hv, hmin⟩
+      exact ⟨by have := hv.1; omega, hv.2, (hpath i hv).1 hmin⟩
+    · rintro ⟨hi, hm, hl⟩
+      have hv : C15.IsV b.rows 1 b.data i := ⟨by omega, hm⟩
+      exact ⟨hv, (hpath i hv).2 hl⟩
+  rw [hinner, hlen]
+  simp only [List.length_nil, Int.natCast_zero, Int.sub_zero]
+  congr 1
+  apply Finset.sum_congr rfl
+  intro k hk
+  exact C15.up_one_col b h1 k (Finset.mem_range.mp hk)
+
+/-! non-vacuity: the column `1 1 0 1` has two runs -/
+example :
+    let b := C15.Bin.ofInts 4 1 [1, 1, 0, 1]
+    C15.eulerModel4 b true = 8 ∧ C15.eulerSpec b false = 2 ∧ C15.eulerModel4 b false = 4 * C15.eulerSpec b false := by
+  intro b
+  exact ⟨by decide +kernel, by decide +kernel, C15_euler_gray_one_col b false rfl⟩
